@@ -144,6 +144,8 @@ def _qcow2(rng, ctx, c, cnt, sample, res, with_snaps=False):
             room -= len(e)
         elif kind == "datafile":
             external = False
+        elif kind == "fmt":
+            fmt_name = None  # the extension did not fit the header cluster and was not written
     nsnap = rng.choice([0, 1, 2, 3, 7, 20]) if with_snaps else 0
     kinds = [rng.choice("NU") for _ in range(ncl)]
     views = [wq.make_view(rng, size=size, cluster_bits=cb, kinds=kinds, extl2=False, tag=rng.getrandbits(40))]
